@@ -322,7 +322,10 @@ func rule155(r *core.Run) {
 	if fn == nil {
 		return
 	}
-	type w struct{ ctor string; fields []string }
+	type w struct {
+		ctor   string
+		fields []string
+	}
 	for _, x := range []w{
 		{"s3bolt.NewFile", []string{"cmd.fakeS3Flags.boltDb"}},
 		{"s3afero.MultiBucket", []string{"cmd.fakeS3Flags.fsPath"}},
